@@ -950,6 +950,22 @@ def cost_checks(ctx):
                     a = dict(a, cpu=sorted(ma)[len(ma) // 2])
                     b = dict(b, cpu=sorted(mb)[len(mb) // 2])
                     ratio = b['cpu'] / max(a['cpu'], 1e-3)
+                    if ratio > 1.6 * (b['len'] / a['len']) and b['cpu'] >= 0.4:
+                        # still steep: other processes on the machine (cache and memory-bandwidth pressure, sibling
+                        # hyper-threads) inflate CPU time by a factor that changes from second to second, so points measured
+                        # at different moments are not comparable under load (seen: 0.32 s → 2.72 s for a linear family
+                        # while three other checks were running).  Measure the two points back to back, one after the
+                        # other and alone, three times; a super-linear cost shows in every pair, a burst of load does not.
+                        pairs = []
+                        for _ in range(3):
+                            again = _pmap(_measure_chunk, [[(fam, a['n'], True), (fam, b['n'], True)]], 600)
+                            if again and again[0] and not any(x.get('timeout') for x in again[0]):
+                                pairs.append((again[0][0]['cpu'], again[0][1]['cpu']))
+                        if pairs:
+                            pa, pb = min(pairs, key=lambda p: p[1] / max(p[0], 1e-3))
+                            a, b = dict(a, cpu=pa), dict(b, cpu=pb)
+                            ratio = pb / max(pa, 1e-3)
+                            row.setdefault('paired_remeasure', []).append([[round(x, 3), round(y, 3)] for x, y in pairs])
                 row.setdefault('ratios', []).append(round(ratio, 2))
                 if ratio > 1.6 * (b['len'] / a['len']) and b['cpu'] >= 0.4:
                     ctx.violation(f"{fam}: CPU time grows {ratio:.1f}x when the input grows {b['len'] / a['len']:.1f}x "
